@@ -851,7 +851,11 @@ func init() {
 				continue
 			}
 			switch string(v) {
-			case "ok", "length-known":
+			case "ok":
+			case "length-known": // the Lean trigger numGrows (single source of truth) must agree with the Go-side allowance
+				if len(j.out) <= len(cs.text) || len(j.out) > len(cs.text)+j.allow {
+					c.R.Add(h.Finding{Stage: stP.Name, Kind: "diff", What: "trigger numGrows (Lean) and the harness allowance for K-C07-1 disagree", Input: h.Q(cs.text), Hex: h.Hex(cs.text), Config: j.cfg.String(), Impl: h.Q(j.out)})
+				}
 			case "invalid-input":
 				c.R.Add(h.Finding{Stage: stP.Name, Kind: "diff", What: "spec parser rejects a text that encoding/json accepts", Input: h.Q(cs.text), Hex: h.Hex(cs.text)})
 			default:
